@@ -21,7 +21,7 @@ func init() {
 		Technique: "storage-layout analysis (key families of every Put/Delete/Find from canonical key terms): who-may-delete, writer/remover agreement, paired indices; must-facts for tombstone/existence guards; notification/effect equivalence at exits",
 		Explanation: "D1 the registry key is 'x'‖sha256(blob) and the stored value contains that blob; D2 the put path is reachable only with the tombstone 'd'‖id read as absent, delete writes 'd'‖id and no method (incl. the migration, shown by key-length facts) deletes family 'd'; " +
 			"D3 every family keyed by the container id that a put path can populate (x, o, eACL, nnsHasAlias, m) is deleted by Delete with the same id term on every effectful path (the alias: or was read empty), and the NNS deleteRecords call is made whenever the alias was non-empty; D4 the owner component of the 'o' key is produced by the same function of the blob at put time (submitted blob) and at delete/owner time (stored blob), 'x' and 'o' are written and deleted together; " +
-			"D5 Get, Owner, Alias, EACL, SetEACL, PutContainerSize reach a normal exit only with 'container exists' established; D6 PutSuccess/DeleteSuccess/SetEACLSuccess are emitted at one site each, outside loops, exactly on the paths that perform the state change, first argument = the container id, no other emitter. M: delete removes exactly when the owner lookup found an owner; list/containersOf scan the owner's ids for a non-empty owner and all ids for an empty one; the meta flag is written exactly when metaOnChain is set; loaders of the blob and the eACL. R6: the id-keyed families are deleted only from Delete (registry and owner index also by the layout migration). R8: arguments of a contract.Call that resolves to a method of this repository stand at the position of the parameter their name is meant for (defaultExpire/defaultTTL). R10: every normal return of SetEACL has stored the submission and announced it. R11: every normal return of a put has emitted PutSuccess (also a repetition that finds its submission stored); emitters are stated per entry point; a write skipped because the stored value is known equal to the value that would be stored counts as done.",
+			"D5 Get, Owner, Alias, EACL, SetEACL, PutContainerSize reach a normal exit only with 'container exists' established; D6 PutSuccess/DeleteSuccess/SetEACLSuccess are emitted at one site each, outside loops, exactly on the paths that perform the state change, first argument = the container id, no other emitter. M: delete removes exactly when the owner lookup found an owner; list/containersOf scan the owner's ids for a non-empty owner and all ids for an empty one; the meta flag is written exactly when metaOnChain is set; loaders of the blob and the eACL. R6: the id-keyed families are deleted only from Delete (registry and owner index also by the layout migration). R8: arguments of a contract.Call that resolves to a method of this repository stand at the position of the parameter their name is meant for (defaultExpire/defaultTTL). R10: every normal return of SetEACL has stored the submission and announced it. R11: every normal return of a put has emitted PutSuccess (also a repetition that finds its submission stored); emitters are stated per entry point; a write skipped because the stored value is known equal to the value that would be stored counts as done. R13 catching-frame: no function with a deferred recover that a method of the property's contracts can reach lies outside the who-may-catch table (container.deleteNNSRecords).",
 		NotCovered: "equality of the read API with a reference model over interleavings, NNS-side effects of alias cleanup, parsing of blobs with unusual version-field offsets (value level).",
 		Run:        runC04,
 	})
@@ -30,7 +30,7 @@ func init() {
 		Level:     "other",
 		Technique: "term agreement and must-facts at the fee transfer call site; loop-shape analysis (one call per Alphabet key, no early exit); dominance of the registry write by the loop exit",
 		Explanation: "D1 the amount argument of the transferX call in PutNamed equals Ext(netmap,config,ContainerFee) when name == \"\" and ContainerFee + ContainerAliasFee when name != \"\" (the same predicate controls the alias registration), and is loop-invariant; " +
-			"D2 the call sits in a range loop over the committee keys with no exit other than exhaustion, to = CreateStandardAccount(element), from = the script hash of the owner parsed from the blob, details = 0x10‖id; D3 the registry write is dominated by the loop exit, no exception-catching frame encloses the calls, and balance.TransferX cannot return normally from a refused transfer (C01). D4 every normal return of netmap.SetConfig has stored the submitted value (a fee of 0 included). D5 the debit/credit leg rules of balance's transfer helper (C01) are re-run: payer = payee included. R7: every integer-to-bytes encoder of package deploy returns the output of neo-go's VM integer codec (the contracts read the deployed settings back as VM integers). R10: every normal return of PutNamed that charged the fee has stored the container. R11: an unpayable put faults: the full amount (amount × keys) is established before the fee loop or a refused balance.transferX faults (one of the two, today both).",
+			"D2 the call sits in a range loop over the committee keys with no exit other than exhaustion, to = CreateStandardAccount(element), from = the script hash of the owner parsed from the blob, details = 0x10‖id; D3 the registry write is dominated by the loop exit, no exception-catching frame encloses the calls, and balance.TransferX cannot return normally from a refused transfer (C01). D4 every normal return of netmap.SetConfig has stored the submitted value (a fee of 0 included). D5 the debit/credit leg rules of balance's transfer helper (C01) are re-run: payer = payee included. R7: every integer-to-bytes encoder of package deploy returns the output of neo-go's VM integer codec (the contracts read the deployed settings back as VM integers). R10: every normal return of PutNamed that charged the fee has stored the container. R11: an unpayable put faults: the full amount (amount × keys) is established before the fee loop or a refused balance.transferX faults (one of the two, today both). R13 catching-frame: no function with a deferred recover that a method of the property's contracts can reach lies outside the who-may-catch table (container.deleteNNSRecords).",
 		NotCovered: "numeric exactness at the balance boundary is delegated to C01 (Balance ≥ amount guard) and VM atomicity.",
 		Run:        runC05,
 	})
@@ -40,7 +40,7 @@ func init() {
 		Technique: "typestate/loop-shape analysis of the counting loop (membership test dominates acceptance, insertion on the counting path, collection scope), key-schema analysis of the roster families, must-facts at the acceptance and notification sites",
 		Explanation: "D1 roster keys are 'u'|'n' ‖ cid(32, guarded) ‖ vector(1) ‖ counter and 'r' ‖ cid ‖ index: scans per cid / (cid, vector) are exact; D2 CommitContainerListUpdate deletes every old 'n' and 'r' key of the cid, and for every scanned 'u' key deletes it and puts 'n'‖key[1:] with the same value, the old-'n' scan preceding the first 'n' put; " +
 			"D3 distinct-principal counting: in VerifyPlacementSignatures the signature check is reachable only through the exhausted exit of a membership loop comparing the candidate member key with a collection that outlives one signature iteration and is initialised per vector; the member key is inserted and the counter incremented only on the success branch; D3b a vector is accepted only under counter == REP read from family 'r' of the same cid, the nodes are scanned for the same vector index that selects sigs[i], and true is returned only after the REP scan is exhausted; " +
-			"D4 SubmitObjectPut notifies only if VerifyPlacementSignatures(cid read from the meta map, the meta bytes, the signatures) returned true and the meta flag of that cid is present. D6 each of the five loops of the commit is reached on every normal path (REP writes only for a non-nil list), ends only on exhaustion and no iteration goes round its operation. D7 the candidate member is an item of the scan of this vector's members only (a candidate list must start empty inside the per-vector loop and receive only items of that scan). M: counting, insertion and acceptance are guarded by the right side of their tests (edge-guard instead of dominance); the roster counter starts at the decoded last pending key exactly when there is one and at 0 otherwise, +1 per item. R6: a REP number is stored under its position in the submitted list. R9: the signatures of a vector are examined from sigs[i][0] to sigs[i][len−1]; a vector is refused for its length only below REP.",
+			"D4 SubmitObjectPut notifies only if VerifyPlacementSignatures(cid read from the meta map, the meta bytes, the signatures) returned true and the meta flag of that cid is present. D6 each of the five loops of the commit is reached on every normal path (REP writes only for a non-nil list), ends only on exhaustion and no iteration goes round its operation. D7 the candidate member is an item of the scan of this vector's members only (a candidate list must start empty inside the per-vector loop and receive only items of that scan). M: counting, insertion and acceptance are guarded by the right side of their tests (edge-guard instead of dominance); the roster counter starts at the decoded last pending key exactly when there is one and at 0 otherwise, +1 per item. R6: a REP number is stored under its position in the submitted list. R9: the signatures of a vector are examined from sigs[i][0] to sigs[i][len−1]; a vector is refused for its length only below REP. R13 catching-frame: no function with a deferred recover that a method of the property's contracts can reach lies outside the who-may-catch table (container.deleteNNSRecords).",
 		NotCovered: "the BE16 counter encoding across 127/255/256 (counterToBytes/counterFromBytes are value-level byte manipulations), submission order equality with a model.",
 		Run:        runC14,
 	})
